@@ -364,9 +364,12 @@ func (fx *FX) oblige(kind, label string, guard, goal T, pos token.Pos, src strin
 			Pos: fx.pos(pos), Src: src, fx: fx, Block: fx.curBlock}
 		fx.obls = append(fx.obls, o)
 	}
-	// assert-then-assume
+	// assert-then-assume (never for the always-false marker obligations: assuming them would make
+	// everything downstream vacuously true)
 	n0 := len(fx.lines)
-	fx.assume(guard, goal)
+	if goal.S != "false" {
+		fx.assume(guard, goal)
+	}
 	for i := n0; i < len(fx.lines); i++ {
 		fx.lineMeta[i].postAssume = true
 		fx.lineMeta[i].droppable = false
